@@ -332,6 +332,21 @@ def _pl_eval(xs, ys, v):
     return ys[n - 1]
 
 
+def splantider(tck, n=1):
+    """Antiderivative spline (order k+1), zero at the first knot.  Inside the knot range it is the same
+    antiderivative splint uses; outside it FITPACK extrapolates the end polynomial, about which the
+    contract says nothing: an unconstrained function of the argument."""
+    info = _info(tck)
+    if n != 1:
+        raise ShimGap('splantider n=%r' % n)
+    k = info['k']
+    t = tck[0]
+    anti = TCK(([t[0]] + list(t) + [t[-1]], None, k + 1))
+    _TCK_INFO[id(anti)] = (anti, {'anti_of': tck, 'k': k + 1, 'x': info['x'], 'y': info['y'], 'id': info['id'],
+                                   'E': z3.Function('Fext!%d' % info['id'], z3.RealSort(), z3.RealSort())})
+    return anti
+
+
 def splev(x, tck, der=0, **kw):
     info = _info(tck)
     if der != 0:
@@ -339,6 +354,11 @@ def splev(x, tck, der=0, **kw):
     if isinstance(x, (nplite.ndarray, list, tuple)):
         arr = nplite.asarray(x)
         return nplite.ndarray([splev(v, tck, der) for v in arr._d], arr.shape, nplite.float64)
+    if 'anti_of' in info:
+        lo, hi = info['x'][0], info['x'][-1]
+        if x < lo or x > hi:
+            return symx.wrap(info['E'](_zr(x)))
+        return splint(lo, x, info['anti_of'])
     xs, ys = info['x'], info['y']
     if info['k'] == 1:
         # FITPACK extrapolates the end pieces by default (ext=0)
@@ -390,6 +410,7 @@ class interpolate_mod:
     splev = staticmethod(splev)
     splint = staticmethod(splint)
     splrep = staticmethod(splrep)
+    splantider = staticmethod(splantider)
 
 
 # ---- exp / log / pow / normal cdf: uninterpreted with the facts that are used -------------
